@@ -207,6 +207,10 @@ def run(ctx) -> Result:
     import redisrun
     res.merge(redisrun.part(ctx, "C03", ['mixed'], n_quick=4, n_deep=16, crash=12, race=0))
     res.assumptions = list(getattr(res, "assumptions", []) or []) + redisrun.ASSUMPTIONS
+    # RabbitMQ broker: sessions on the real RabbitMessageBroker/_RabbitConsumer (in-process fake AMQP server) vs Rabbit.S
+    import rabbitrun
+    res.merge(rabbitrun.part(ctx, "C03", ['mixed'], n_quick=2, n_deep=8, specials=['window']))
+    res.assumptions = list(res.assumptions) + rabbitrun.ASSUMPTIONS
     return res
 
 
